@@ -2,10 +2,12 @@
    Proved here: every failure of a read / frame decode closes the pending-call table in the same
    step; a call made on an ended link fails at once with a non-nil error and writes nothing; a
    woken waiter always hands over a 'cancelled' response and the caller turns it into an error
-   with a zero value (so a nil error can only come from a genuine response).
-   The bounded-own-steps progress statement of DESIGN.md §5 C03 is not proved; hangs are decided
-   by the quiescence monitor of the check (level note). *)
-From Verif Require Import Base Link LinkProofs.
+   with a zero value (so a nil error can only come from a genuine response); and, over ALL
+   reachable states of Link.v (every schedule, fault sequence, cancellation, peer behaviour): on an
+   ended link a call blocked in its result select returns after at most four steps of its own
+   waiter and itself — no step of any handler, peer, reader or transport is needed — with a non-nil
+   error unless its waiter already holds a genuine error-free response. *)
+From Verif Require Import Base Link LinkProofs LinkInv16 LinkInvB.
 
 Theorem read_failure_ends_link :
   forall calls s n,
@@ -55,3 +57,20 @@ Theorem cancelled_response_is_an_error :
     step_caller calls s i (CSelected (Some (WCancelled e))) = Some (caller_return s i zero (Some e)).
 Proof. reflexivity. Qed.
 Print Assumptions cancelled_response_is_an_error.
+
+(* the blocked-thread invariant: in every reachable state a blocked caller has a live waiter, a
+   blocked waiter / publisher / watcher has no applicable reason to wake, no waiter and publisher
+   are parked on the same entry, and a closed table has only cancelled entries *)
+Theorem nobody_waits_in_vain :
+  forall calls s, lreachable fixed calls s -> InvB calls s.
+Proof. exact InvB_reachable. Qed.
+Print Assumptions nobody_waits_in_vain.
+
+Theorem inflight_calls_return_error :
+  forall calls s i,
+    lreachable fixed calls s -> bclosed s = true -> tget (threads s) (TCall i) = Some CBlocked ->
+    exists cs s' v e, length cs <= 4 /\ own_steps i cs /\ lrun fixed calls s cs = Some s' /\
+                      tget (threads s') (TCall i) = Some (CReturned v e) /\
+                      (e = None -> exists x, tget (threads s) (TWaiter i) = Some (WWoke (WResp x None))).
+Proof. exact inflight_call_returns_lemma. Qed.
+Print Assumptions inflight_calls_return_error.
